@@ -62,8 +62,37 @@ def random_dag(rng, n, p=0.4, names=None):
     return tuple(edges)
 
 
+def ts_names(n, edges):
+    """`tsv<i>` at a lag that grows with the depth of node i (longest path from a source): every edge goes forward in
+    time, nodes of one depth (or of two adjacent depths) are contemporaneous.  A cyclic edge list gets lag 0 throughout."""
+    level = [0] * n
+    for _ in range(n):
+        changed = False
+        for a, b in edges:
+            if level[b] < level[a] + 1:
+                level[b] = level[a] + 1
+                changed = True
+        if not changed:
+            break
+    else:
+        if n:
+            level = [0] * n                       # a directed cycle: everything contemporaneous
+    top = max(level) if n else 0
+    halve = (n + len(list(edges))) % 2 == 1
+    out = []
+    for i in range(n):
+        back = (top - level[i]) // 2 if halve else top - level[i]
+        out.append(f'tsv{i}' if back == 0 else f'tsv{i} lag(n={back})')
+    return out
+
+
 def named(edges, names=NAMES):
     return [(names[i], names[j]) for i, j in edges]
+
+
+def _directed():
+    from cai_causal_graph.type_definitions import EdgeType
+    return EdgeType.DIRECTED_EDGE
 
 
 def build_dag(n, edges, names=NAMES, cls=None, order=None):
@@ -80,14 +109,24 @@ def build_dag(n, edges, names=NAMES, cls=None, order=None):
     for x in nodes:
         if x not in late:
             g.add_node(x)
+    retype = []
     for k, (i, j) in enumerate(edges):
         if k == len(edges) - 1 and len(edges) >= 2:
             # interactions BEFORE the last edge goes in: a later successful mutation must still reset every cache
             stress(g, ('dag-pre', n, tuple(edges)))
         if (n + k + len(edges)) % 3 == 0:
             g.add_edge(names[i], names[j], edge_type='->')          # the edge type spelled as a plain string
+        elif (n + 3 * k + len(edges)) % 7 == 0:
+            # the edge arrives with another type and is directed afterwards (at once, or after all edges are in)
+            g.add_edge(names[i], names[j], edge_type=['o>', '--', '<>', 'oo', 'o-'][(n + k) % 5])
+            if k % 2:
+                g.change_edge_type(names[i], names[j], '->' if k % 4 == 1 else _directed())
+            else:
+                retype.append((names[i], names[j]))
         else:
             g.add_edge(names[i], names[j])
+    for a, b in retype:
+        g.change_edge_type(a, b, _directed())
     stress(g, ('dag', n, tuple(edges)))
     g = reroute(g, ('dag', n, tuple(edges)))[0]
     if late:
@@ -212,6 +251,24 @@ def stress(g, key):
     desc = brute_descendants(names, directed)
     joined = {(e.source.identifier, e.destination.identifier) for e in g.get_edges()}
     joined |= {(b, a) for a, b in joined}
+    if h // 59 % 4 == 0 and directed:
+        # cold variant: a rejected call arrives on COLD caches (the builder has just mutated the graph), then every memoised
+        # answer is taken only while one edge is non-directed, then the edge is directed again
+        try:
+            g.add_node(names[h // 61 % len(names)])
+            done.append('duplicate-node-accepted!')
+        except Exception:  # noqa: BLE001
+            done.append('rejected-duplicate-node')
+        a, b = directed[h // 19 % len(directed)]
+        try:
+            g.change_edge_type(a, b, [EdgeType.UNDIRECTED_EDGE, EdgeType.UNKNOWN_DIRECTED_EDGE,
+                                      EdgeType.BIDIRECTED_EDGE][h // 31 % 3])
+            _warm(g)
+            g.change_edge_type(a, b, EdgeType.DIRECTED_EDGE)
+            done.append('cold-rejected-then-warm-while-mixed')
+        except Exception:  # noqa: BLE001
+            done.append('detour-raised')
+        return done
     _warm(g)
     # 1. a rejected cycle-closing edge between non-adjacent nodes (the insert-check-rollback path)
     cands = [(s, d) for d in names for s in sorted(desc[d]) if (s, d) not in joined]
